@@ -412,7 +412,7 @@ func init() {
 				// +inline-call reg.Set RA -nm
 			} else {
 				op := L.metaOp1(unaryv, "__unm")
-				if op.Type() == LTFunction {
+				if op != LNil {
 					reg.Push(op)
 					reg.Push(unaryv)
 					reg.Push(unaryv)
@@ -956,7 +956,7 @@ func objectArith(L *LState, opcode int, lhs, rhs LValue) LValue {
 		event = "__pow"
 	}
 	op := L.metaOp2(lhs, rhs, event)
-	if _, ok := op.(*LFunction); ok {
+	if op != LNil {
 		L.reg.Push(op)
 		L.reg.Push(lhs)
 		L.reg.Push(rhs)
@@ -991,7 +991,7 @@ func stringConcat(L *LState, total, last int) LValue {
 		lhs := L.reg.Get(i)
 		if !(LVCanConvToString(lhs) && LVCanConvToString(rhs)) {
 			op := L.metaOp2(lhs, rhs, "__concat")
-			if op.Type() == LTFunction {
+			if op != LNil {
 				L.reg.Push(op)
 				L.reg.Push(lhs)
 				L.reg.Push(rhs)
@@ -1092,7 +1092,7 @@ func objectRationalWithError(L *LState, lhs, rhs LValue, event string) bool {
 func objectRational(L *LState, lhs, rhs LValue, event string) int {
 	m1 := L.metaOp1(lhs, event)
 	m2 := L.metaOp1(rhs, event)
-	if m1.Type() == LTFunction && m1 == m2 {
+	if m1 != LNil && m1 == m2 {
 		L.reg.Push(m1)
 		L.reg.Push(lhs)
 		L.reg.Push(rhs)
